@@ -24,9 +24,59 @@ use vcore::{catch, fnv64, Ctx, Local, PanicInfo};
 
 use crate::wirekit::{self, labels, SrcClass, Q};
 
-/// Retry interval of `UdpClientStream` (DEFAULT_RETRY_FLOOR) in ms; transmissions at 0, R, 2R.
-pub const R_MS: u64 = 333;
-pub const TIMEOUT_MS: u64 = 5000;
+/// One client configuration. The default one is explored deepest; every other one varies ONE
+/// dimension (server address family, number of questions, receive buffer, retry budget, retry
+/// interval, overall timeout).
+#[derive(Clone, Debug)]
+pub struct UdpCfg {
+    pub name: &'static str,
+    pub server: &'static str,
+    /// questions in the request (2: built with DnsRequest::new, mixed-case names as given)
+    pub nq: u8,
+    pub max_retries: u8,
+    /// DnsRequestOptions::retry_interval
+    pub req_interval_ms: u64,
+    /// with_retry_interval_floor (None = builder default 333)
+    pub floor_ms: Option<u64>,
+    pub timeout_ms: u64,
+    /// DnsRequestOptions::edns_payload_len (None = default)
+    pub edns_payload: Option<u16>,
+}
+
+impl UdpCfg {
+    /// retry interval the client has to use
+    pub fn r_ms(&self) -> u64 {
+        self.req_interval_ms.max(self.floor_ms.unwrap_or(333))
+    }
+    /// transmissions the client may make (`max_retries` counts tasks; 0 still transmits once)
+    pub fn max_tx(&self) -> usize {
+        (self.max_retries as usize).max(1)
+    }
+    pub fn server(&self) -> SocketAddr {
+        self.server.parse().unwrap()
+    }
+}
+
+const fn base_cfg() -> UdpCfg {
+    UdpCfg { name: "default", server: "192.0.2.53:53", nq: 1, max_retries: 3, req_interval_ms: 333, floor_ms: None, timeout_ms: 5000, edns_payload: None }
+}
+
+pub fn configs() -> Vec<UdpCfg> {
+    vec![
+        base_cfg(),
+        UdpCfg { name: "server-v6", server: "[2001:db8::53]:53", ..base_cfg() },
+        UdpCfg { name: "server-v4-mapped", server: "[::ffff:192.0.2.53]:53", ..base_cfg() },
+        UdpCfg { name: "two-questions", nq: 2, ..base_cfg() },
+        UdpCfg { name: "receive-buffer-512", edns_payload: Some(512), ..base_cfg() },
+        UdpCfg { name: "one-transmission", max_retries: 1, ..base_cfg() },
+        UdpCfg { name: "five-transmissions-100ms", max_retries: 5, req_interval_ms: 50, floor_ms: Some(100), ..base_cfg() },
+        UdpCfg { name: "interval-500-timeout-700", req_interval_ms: 500, timeout_ms: 700, ..base_cfg() },
+    ]
+}
+
+pub fn cfg_by_name(name: &str) -> Option<UdpCfg> {
+    configs().into_iter().find(|c| c.name == name)
+}
 
 #[derive(Clone, Copy, Debug, PartialEq, Eq, Hash)]
 pub enum Kind {
@@ -46,9 +96,24 @@ pub enum Kind {
     RecvError,
     NoQuestion,
     QueryEcho,
+    /// asked name and type, class CH
+    OtherClass,
+    /// the asked name without its first label (the parent)
+    ParentName,
+    /// source `::a.b.c.d` (IPv4-compatible, NOT the v4-mapped form) of the queried IPv4 address
+    V4CompatSource,
+    /// genuine reply followed by a 700-byte record: fits the default buffer, not a 512-byte one
+    Oversized,
+    /// two-question requests: only the last asked question is echoed
+    SubsetLast,
+    /// two-question requests: asked questions in reverse order
+    Reversed,
+    /// two-question requests: name of the first with type of the second question (never asked)
+    MixedPair,
 }
 
-pub const KINDS: [Kind; 16] = [
+/// Kinds used with single-question requests.
+pub const KINDS: [Kind; 20] = [
     Kind::Genuine,
     Kind::WrongIp,
     Kind::WrongPort,
@@ -65,7 +130,22 @@ pub const KINDS: [Kind; 16] = [
     Kind::RecvError,
     Kind::NoQuestion,
     Kind::QueryEcho,
+    Kind::OtherClass,
+    Kind::ParentName,
+    Kind::V4CompatSource,
+    Kind::Oversized,
 ];
+
+/// Additional kinds that only make sense when two questions were asked.
+pub const KINDS_2Q: [Kind; 3] = [Kind::SubsetLast, Kind::Reversed, Kind::MixedPair];
+
+pub fn kinds_of(cfg: &UdpCfg) -> Vec<Kind> {
+    let mut v = KINDS.to_vec();
+    if cfg.nq == 2 {
+        v.extend(KINDS_2Q);
+    }
+    v
+}
 
 impl Kind {
     pub fn name(self) -> &'static str {
@@ -86,10 +166,17 @@ impl Kind {
             Kind::RecvError => "recv-error",
             Kind::NoQuestion => "no-question",
             Kind::QueryEcho => "query-echo",
+            Kind::OtherClass => "other-class",
+            Kind::ParentName => "parent-name",
+            Kind::V4CompatSource => "v4-compatible-source",
+            Kind::Oversized => "oversized-700",
+            Kind::SubsetLast => "only-last-question",
+            Kind::Reversed => "questions-reversed",
+            Kind::MixedPair => "name1-with-type2",
         }
     }
     pub fn from_name(s: &str) -> Option<Kind> {
-        KINDS.iter().copied().find(|k| k.name() == s)
+        KINDS.iter().chain(KINDS_2Q.iter()).copied().find(|k| k.name() == s)
     }
 }
 
@@ -103,6 +190,7 @@ pub enum Step {
 
 #[derive(Clone, Debug)]
 pub struct Case {
+    pub cfg: UdpCfg,
     /// 0x20 case randomisation on
     pub rand: bool,
     /// tie family: a datagram for an older socket that directly follows `Retry` arrives in the
@@ -121,7 +209,7 @@ impl Case {
                 Step::D { kind, back } => json!({"k": kind.name(), "back": back}),
             })
             .collect();
-        json!({"part": "udp", "rand": self.rand, "tie": self.tie, "steps": steps})
+        json!({"part": "udp", "cfg": self.cfg.name, "rand": self.rand, "tie": self.tie, "steps": steps})
     }
     pub fn from_json(v: &Value) -> Option<Case> {
         let mut steps = vec![];
@@ -135,7 +223,8 @@ impl Case {
                 });
             }
         }
-        Some(Case { rand: v["rand"].as_bool()?, tie: v["tie"].as_bool().unwrap_or(false), steps })
+        let cfg = cfg_by_name(v["cfg"].as_str().unwrap_or("default"))?;
+        Some(Case { cfg, rand: v["rand"].as_bool()?, tie: v["tie"].as_bool().unwrap_or(false), steps })
     }
 }
 
@@ -147,10 +236,33 @@ pub struct Planned {
     pub at_ms: u64,
 }
 
+/// Is the sequence a prefix of a well-formed schedule (retry budget, sockets addressed exist)?
+pub fn plannable(cfg: &UdpCfg, steps: &[Step]) -> bool {
+    let mut retries = 0usize;
+    for s in steps {
+        match *s {
+            Step::Retry => {
+                if retries + 1 >= cfg.max_tx() {
+                    return false;
+                }
+                retries += 1;
+            }
+            Step::D { back, .. } => {
+                if back as usize > retries {
+                    return false;
+                }
+            }
+        }
+    }
+    true
+}
+
 /// Virtual arrival instants. Steps of epoch b (after b `Retry`s) arrive at b*R + 1, +2, ... ms, so
 /// no datagram ever coincides with the retry timer (multiples of R) or the 5 s timeout - except
 /// the dedicated tie placement. `None` = not a well-formed schedule.
 pub fn plan(case: &Case) -> Option<Vec<Planned>> {
+    let r_ms = case.cfg.r_ms();
+    let max_tx = case.cfg.max_tx();
     let mut retries = 0usize;
     let mut j = 0u64;
     let mut prev_retry = false;
@@ -159,7 +271,7 @@ pub fn plan(case: &Case) -> Option<Vec<Planned>> {
     for (i, s) in case.steps.iter().enumerate() {
         match *s {
             Step::Retry => {
-                if retries == 2 {
+                if retries + 1 >= max_tx {
                     return None;
                 }
                 retries += 1;
@@ -173,10 +285,10 @@ pub fn plan(case: &Case) -> Option<Vec<Planned>> {
                 let sock = retries - back as usize;
                 let at_ms = if case.tie && prev_retry && back >= 1 {
                     tie_used = true;
-                    retries as u64 * R_MS
+                    retries as u64 * r_ms
                 } else {
                     j += 1;
-                    retries as u64 * R_MS + j
+                    retries as u64 * r_ms + j
                 };
                 out.push(Planned { step: i, sock, kind, at_ms });
                 prev_retry = false;
@@ -224,6 +336,7 @@ struct Shared {
     socks: Vec<Sock>,
     deliveries: Vec<Delivery>,
     recv_before_send: bool,
+    truncated_by_buffer: usize,
 }
 
 #[derive(Clone)]
@@ -237,43 +350,114 @@ struct SimUdp {
     idx: usize,
 }
 
-fn other_ip() -> std::net::IpAddr {
-    "203.0.113.9".parse().unwrap()
+fn other_ip_for(server: SocketAddr) -> std::net::IpAddr {
+    match server.ip() {
+        std::net::IpAddr::V6(a) if a.to_ipv4_mapped().is_none() => "2001:db8::54".parse().unwrap(),
+        _ => "203.0.113.9".parse().unwrap(),
+    }
 }
 
 /// Build the scripted datagram relative to the request observed on the socket.
 fn build(kind: Kind, req: &[u8], server: SocketAddr, marker: [u8; 4]) -> (Vec<u8>, SocketAddr) {
     let (id, asked) = wirekit::request_view(req).expect("transmitted request is walkable");
     let q0 = asked.first().cloned().unwrap_or(Q { name: labels("www.example.com"), qtype: 1, qclass: 1 });
+    let qlast = asked.last().cloned().unwrap_or(q0.clone());
     let owner = q0.name.clone();
     let evil = Q { name: labels("evil.example.com"), qtype: q0.qtype, qclass: q0.qclass };
-    let genuine = || wirekit::response(id, &[q0.clone()], &owner, marker);
+    // the genuine reply echoes every asked question
+    let genuine = || wirekit::response(id, &asked, &owner, marker);
+    // "q0 replaced by x", the other asked questions kept
+    let with_q0 = |x: Q| {
+        let mut qs = asked.clone();
+        if qs.is_empty() {
+            qs.push(x);
+        } else {
+            qs[0] = x;
+        }
+        qs
+    };
+    let other_v4 = |a: std::net::Ipv4Addr| -> std::net::IpAddr {
+        // ::a.b.c.d - the deprecated "IPv4-compatible" form, which is not the v4-mapped one
+        let o = a.octets();
+        std::net::IpAddr::V6(std::net::Ipv6Addr::new(0, 0, 0, 0, 0, 0, u16::from_be_bytes([o[0], o[1]]), u16::from_be_bytes([o[2], o[3]])))
+    };
     match kind {
         Kind::Genuine => (genuine(), server),
-        Kind::WrongIp => (genuine(), SocketAddr::new(other_ip(), server.port())),
+        Kind::WrongIp => (genuine(), SocketAddr::new(other_ip_for(server), server.port())),
         Kind::WrongPort => (genuine(), SocketAddr::new(server.ip(), 5353)),
         Kind::MappedRight => {
+            // the "other spelling" of the queried endpoint: v4 <-> v4-mapped v6; for a genuine
+            // IPv6 server the same address and port with another scope id / flow label
+            let src = match server {
+                SocketAddr::V4(a) => SocketAddr::new(std::net::IpAddr::V6(a.ip().to_ipv6_mapped()), a.port()),
+                SocketAddr::V6(a) => match a.ip().to_ipv4_mapped() {
+                    Some(v4) => SocketAddr::new(std::net::IpAddr::V4(v4), a.port()),
+                    None => SocketAddr::V6(std::net::SocketAddrV6::new(*a.ip(), a.port(), 9, 7)),
+                },
+            };
+            (genuine(), src)
+        }
+        Kind::V4CompatSource => {
             let ip = match server.ip() {
-                std::net::IpAddr::V4(a) => std::net::IpAddr::V6(a.to_ipv6_mapped()),
-                v6 => v6,
+                std::net::IpAddr::V4(a) => other_v4(a),
+                std::net::IpAddr::V6(a) => match a.to_ipv4_mapped() {
+                    Some(v4) => other_v4(v4),
+                    // low 32 bits of the IPv6 address read as an IPv4 address
+                    None => {
+                        let o = a.octets();
+                        std::net::IpAddr::V4(std::net::Ipv4Addr::new(o[12], o[13], o[14], o[15]))
+                    }
+                },
             };
             (genuine(), SocketAddr::new(ip, server.port()))
         }
-        Kind::WrongIdLow => (wirekit::response(id ^ 1, &[q0.clone()], &owner, marker), server),
-        Kind::WrongIdHigh => (wirekit::response(id ^ 0x8000, &[q0.clone()], &owner, marker), server),
-        Kind::OtherName => (wirekit::response(id, &[evil], &owner, marker), server),
+        Kind::WrongIdLow => (wirekit::response(id ^ 1, &asked, &owner, marker), server),
+        Kind::WrongIdHigh => (wirekit::response(id ^ 0x8000, &asked, &owner, marker), server),
+        Kind::OtherName => (wirekit::response(id, &with_q0(evil), &owner, marker), server),
         Kind::OtherType => {
-            let q = Q { name: q0.name.clone(), qtype: if q0.qtype == 28 { 1 } else { 28 }, qclass: q0.qclass };
-            (wirekit::response(id, &[q], &owner, marker), server)
+            let q = Q { name: q0.name.clone(), qtype: if q0.qtype == 15 { 16 } else { 15 }, qclass: q0.qclass };
+            (wirekit::response(id, &with_q0(q), &owner, marker), server)
         }
-        Kind::ExtraQuestion => (wirekit::response(id, &[q0.clone(), evil], &owner, marker), server),
+        Kind::OtherClass => {
+            let q = Q { name: q0.name.clone(), qtype: q0.qtype, qclass: if q0.qclass == 3 { 1 } else { 3 } };
+            (wirekit::response(id, &with_q0(q), &owner, marker), server)
+        }
+        Kind::ParentName => {
+            let q = Q { name: q0.name.iter().skip(1).cloned().collect(), qtype: q0.qtype, qclass: q0.qclass };
+            (wirekit::response(id, &with_q0(q), &owner, marker), server)
+        }
+        Kind::ExtraQuestion => {
+            let mut qs = asked.clone();
+            qs.push(evil);
+            (wirekit::response(id, &qs, &owner, marker), server)
+        }
         Kind::CaseFlipped => {
             let q = Q { name: wirekit::flip_one_letter(&q0.name), qtype: q0.qtype, qclass: q0.qclass };
+            (wirekit::response(id, &with_q0(q), &owner, marker), server)
+        }
+        Kind::SubsetLast => (wirekit::response(id, &[qlast], &owner, marker), server),
+        Kind::Reversed => {
+            let mut qs = asked.clone();
+            qs.reverse();
+            (wirekit::response(id, &qs, &owner, marker), server)
+        }
+        Kind::MixedPair => {
+            let q = Q { name: q0.name.clone(), qtype: qlast.qtype, qclass: qlast.qclass };
             (wirekit::response(id, &[q], &owner, marker), server)
+        }
+        Kind::Oversized => {
+            let mut b = genuine();
+            // bump ANCOUNT and append `owner TYPE10(NULL) IN 60 <700 bytes>`
+            b[7] = 2;
+            vref::wire::emit_name(&owner, &mut b);
+            b.extend_from_slice(&[0, 10, 0, 1, 0, 0, 0, 60]);
+            b.extend_from_slice(&700u16.to_be_bytes());
+            b.extend(std::iter::repeat(0xab).take(700));
+            (b, server)
         }
         Kind::GarbageRight => (vec![0xff; 7], server),
         Kind::GarbageRightId => (genuine()[..14].to_vec(), server),
-        Kind::GarbageWrongSrc => (vec![0xff; 7], SocketAddr::new(other_ip(), 1)),
+        Kind::GarbageWrongSrc => (vec![0xff; 7], SocketAddr::new(other_ip_for(server), 1)),
         Kind::NoQuestion => (wirekit::response(id, &[], &owner, marker), server),
         Kind::QueryEcho => (req.to_vec(), server),
         Kind::RecvError => (vec![], server),
@@ -316,6 +500,12 @@ impl DnsUdpSocket for SimUdp {
         if next.kind != Kind::RecvError {
             sock.examined += 1;
         }
+        // a datagram larger than the caller's buffer is cut off by the socket
+        let n = bytes.len().min(buf.len());
+        if n < bytes.len() {
+            g.truncated_by_buffer += 1;
+        }
+        let bytes = bytes[..n].to_vec();
         g.deliveries.push(Delivery {
             step: next.step,
             sock: self.idx,
@@ -329,7 +519,6 @@ impl DnsUdpSocket for SimUdp {
         if next.kind == Kind::RecvError {
             return Poll::Ready(Err(io::Error::other("scripted recv error")));
         }
-        let n = bytes.len().min(buf.len());
         buf[..n].copy_from_slice(&bytes[..n]);
         Poll::Ready(Ok((n, src)))
     }
@@ -397,37 +586,55 @@ pub struct Obs {
     pub recv_before_send: bool,
 }
 
-pub fn server() -> SocketAddr {
-    "192.0.2.53:53".parse().unwrap()
-}
 
 pub fn execute(case: &Case, planned: &[Planned], rt: &mut tokio::runtime::Runtime) -> Obs {
     let holder: Arc<Mutex<Option<Arc<Mutex<Shared>>>>> = Arc::new(Mutex::new(None));
     let h2 = holder.clone();
     let rand = case.rand;
+    let cfg = case.cfg.clone();
     let planned_v = planned.to_vec();
     let res = catch(|| {
         rt.block_on(async move {
             let t0 = tokio::time::Instant::now();
             let sh = Arc::new(Mutex::new(Shared {
                 t0,
-                server: server(),
+                server: cfg.server(),
                 plan: planned_v,
                 socks: vec![],
                 deliveries: vec![],
                 recv_before_send: false,
+                truncated_by_buffer: 0,
             }));
             *h2.lock().unwrap() = Some(sh.clone());
             let net = SimNet { sh: sh.clone(), inner: TokioRuntimeProvider::new() };
-            let mut stream = UdpClientStream::builder(server(), net)
-                .with_timeout(Some(Duration::from_millis(TIMEOUT_MS)))
-                .build();
+            let mut b = UdpClientStream::builder(cfg.server(), net)
+                .with_timeout(Some(Duration::from_millis(cfg.timeout_ms)))
+                .with_max_retries(cfg.max_retries);
+            if let Some(f) = cfg.floor_ms {
+                b = b.with_retry_interval_floor(f);
+            }
+            let mut stream = b.build();
             let mut opts = DnsRequestOptions::default();
             opts.case_randomization = rand;
-            let req = DnsRequest::from_query(
-                Query::new(Name::from_ascii("www.example.com.").unwrap(), RecordType::A),
-                opts,
-            );
+            opts.retry_interval = Duration::from_millis(cfg.req_interval_ms);
+            if let Some(p) = cfg.edns_payload {
+                opts.edns_payload_len = p;
+            }
+            let req = if cfg.nq == 1 {
+                DnsRequest::from_query(Query::new(Name::from_ascii("www.example.com.").unwrap(), RecordType::A), opts)
+            } else {
+                // two questions, built by hand: names go out in the letter case given here and
+                // (with the option on) replies are held to exactly that case
+                let mut m = hickory_proto::op::Message::query();
+                m.add_query(Query::new(Name::from_ascii("wWw.eXample.com.").unwrap(), RecordType::A));
+                m.add_query(Query::new(Name::from_ascii("Mail.example.COM.").unwrap(), RecordType::AAAA));
+                if let Some(p) = cfg.edns_payload {
+                    let mut e = hickory_proto::op::Edns::new();
+                    e.set_max_payload(p);
+                    m.set_edns(e);
+                }
+                DnsRequest::new(m, opts)
+            };
             let r = stream.send_message(req).next().await;
             let end_us = (tokio::time::Instant::now() - t0).as_micros() as u64;
             (r, end_us)
@@ -531,8 +738,9 @@ enum Class {
     NoAcceptAbortOk,
 }
 
-fn classify(d: &Delivery, rand: bool) -> (Class, wirekit::Verdict) {
-    let v = wirekit::judge_datagram(&d.bytes, d.src, server(), &d.request);
+fn classify(d: &Delivery, case: &Case) -> (Class, wirekit::Verdict) {
+    let rand = case.rand;
+    let v = wirekit::judge_datagram(&d.bytes, d.src, case.cfg.server(), &d.request);
     if d.kind == Kind::RecvError {
         return (Class::NoAcceptAbortOk, v);
     }
@@ -583,7 +791,7 @@ pub fn judge(case: &Case, planned: &[Planned], o: &Obs, l: &mut Local) -> Option
             });
         };
         accepted_step = Some(d.step);
-        let (_, v) = classify(d, case.rand);
+        let (_, v) = classify(d, case);
         if !v.matches(case.rand) {
             return Some(Finding {
                 key: format!("udp-accepted:{}", v.first_failing(case.rand)),
@@ -605,9 +813,12 @@ pub fn judge(case: &Case, planned: &[Planned], o: &Obs, l: &mut Local) -> Option
             l.outcome("obs:udp-accepted-qr0-message");
         }
         match d.kind {
-            Kind::MappedRight => l.outcome("obs:udp-v4-mapped-source-accepted"),
+            Kind::MappedRight => l.outcome("obs:udp-other-spelling-of-queried-endpoint-accepted"),
             Kind::NoQuestion => l.outcome("obs:udp-empty-question-section-accepted"),
             Kind::CaseFlipped => l.outcome("obs:udp-other-case-accepted-randomisation-off"),
+            Kind::Oversized => l.outcome("obs:udp-reply-with-extra-700-byte-record-accepted"),
+            Kind::SubsetLast => l.outcome("obs:udp-reply-echoing-only-one-of-two-questions-accepted"),
+            Kind::Reversed => l.outcome("obs:udp-reply-with-reversed-questions-accepted"),
             _ => {}
         }
     }
@@ -615,7 +826,7 @@ pub fn judge(case: &Case, planned: &[Planned], o: &Obs, l: &mut Local) -> Option
     let n = o.deliveries.len();
     for (i, d) in o.deliveries.iter().enumerate() {
         let last = i + 1 == n;
-        let (class, _) = classify(d, case.rand);
+        let (class, _) = classify(d, case);
         let accepted_this = accepted_step == Some(d.step);
         match class {
             Class::MustAccept if d.examined_before < 3 && !accepted_this => {
@@ -680,7 +891,7 @@ pub fn judge(case: &Case, planned: &[Planned], o: &Obs, l: &mut Local) -> Option
         }
         let on_sock: Vec<&Delivery> = o.deliveries.iter().filter(|d| d.sock == p.sock).collect();
         let examined = on_sock.iter().filter(|d| d.kind != Kind::RecvError).count();
-        let abort_ok = on_sock.iter().any(|d| classify(d, case.rand).0 == Class::NoAcceptAbortOk);
+        let abort_ok = on_sock.iter().any(|d| classify(d, case).0 == Class::NoAcceptAbortOk);
         let earlier_pending = planned.iter().any(|q| q.sock == p.sock && q.step < p.step && !o.deliveries.iter().any(|d| d.step == q.step));
         if examined < 3 && !abort_ok && !earlier_pending {
             return Some(Finding {
@@ -695,50 +906,37 @@ pub fn judge(case: &Case, planned: &[Planned], o: &Obs, l: &mut Local) -> Option
 // ------------------------------------------------------------------------------------------
 // enumeration
 
-pub struct Family {
-    pub name: &'static str,
-    pub symbols: Vec<Step>,
-    pub max_len: usize,
-    /// only sequences with at least one step for an older socket (the rest is family A)
-    pub need_back: bool,
-}
-
-impl Family {
-    pub fn sequences(&self) -> u64 {
-        let s = self.symbols.len() as u64;
-        (0..=self.max_len as u32).map(|l| s.pow(l)).sum()
-    }
-    pub fn nth(&self, mut i: u64) -> Vec<Step> {
-        let s = self.symbols.len() as u64;
-        let mut len = 0u32;
-        loop {
-            let block = s.pow(len);
-            if i < block {
-                break;
-            }
-            i -= block;
-            len += 1;
-        }
-        let mut out = Vec::with_capacity(len as usize);
-        for _ in 0..len {
-            out.push(self.symbols[(i % s) as usize]);
-            i /= s;
-        }
-        out
-    }
-}
-
-pub fn families(thorough: bool) -> Vec<Family> {
-    let mut a = vec![Step::Retry];
-    a.extend(KINDS.iter().map(|k| Step::D { kind: *k, back: 0 }));
-    let mut b = vec![Step::Retry];
+/// The symbols of a configuration: wait-for-retransmission + every kind addressed to the newest
+/// socket (back 0) or to one of the two previous ones (late replies, back 1 / 2).
+pub fn symbols(cfg: &UdpCfg) -> Vec<Step> {
+    let mut v = vec![Step::Retry];
     for back in 0..3u8 {
-        b.extend(KINDS.iter().map(move |k| Step::D { kind: *k, back }));
+        v.extend(kinds_of(cfg).into_iter().map(move |k| Step::D { kind: k, back }));
     }
-    vec![
-        Family { name: "latest-socket", symbols: a, max_len: if thorough { 5 } else { 4 }, need_back: false },
-        Family { name: "any-socket", symbols: b, max_len: if thorough { 5 } else { 4 }, need_back: true },
-    ]
+    v
+}
+
+/// Depth-first enumeration of every well-formed schedule that extends `prefix` up to `max_len`
+/// steps (the prefix itself included). Only plannable prefixes are extended, so nothing is
+/// generated and thrown away.
+fn extend(cfg: &UdpCfg, syms: &[Step], seq: &mut Vec<Step>, max_len: usize, f: &mut dyn FnMut(&[Step])) {
+    if !matches!(seq.last(), Some(Step::Retry)) {
+        f(seq);
+    }
+    if seq.len() == max_len {
+        return;
+    }
+    for s in syms {
+        seq.push(*s);
+        if plannable(cfg, seq) {
+            extend(cfg, syms, seq, max_len, f);
+        }
+        seq.pop();
+    }
+}
+
+fn has_tie_spot(steps: &[Step]) -> bool {
+    steps.windows(2).any(|w| matches!((w[0], w[1]), (Step::Retry, Step::D { back, .. }) if back >= 1))
 }
 
 pub struct Totals {
@@ -761,8 +959,13 @@ pub fn run_case(ctx: &Ctx, case: &Case, rt: &mut tokio::runtime::Runtime, l: &mu
     }
     // the scripted instants assume transmissions at 0, R, 2R
     for (i, t) in o.tx_us.iter().enumerate() {
-        if *t != i as u64 * R_MS * 1000 {
-            ctx.machinery_failure(&format!("transmission {i} happened at {t} us, the schedule grid assumes {} ms", i as u64 * R_MS));
+        if *t != i as u64 * case.cfg.r_ms() * 1000 || i >= case.cfg.max_tx() {
+            ctx.machinery_failure(&format!(
+                "config {}: transmission {i} happened at {t} us, the schedule grid assumes {} ms and at most {} transmissions",
+                case.cfg.name,
+                i as u64 * case.cfg.r_ms(),
+                case.cfg.max_tx()
+            ));
         }
     }
     if let Some(t) = totals {
@@ -777,6 +980,9 @@ pub fn run_case(ctx: &Ctx, case: &Case, rt: &mut tokio::runtime::Runtime, l: &mu
     }
     let class = format!("udp:{}", o.outcome_class());
     l.outcome_sample(&class, || case.to_json());
+    if case.cfg.name != "default" {
+        l.outcome(&format!("udp:cfg:{}:{}", case.cfg.name, o.outcome_class()));
+    }
     l.outcome(&format!("udp:transmissions={}", o.tx_us.len()));
     // non-trivial: a non-matching datagram was consumed before the genuine one was consumed
     if let Some(gi) = o.deliveries.iter().position(|d| d.kind == Kind::Genuine) {
@@ -837,36 +1043,69 @@ pub fn run_case(ctx: &Ctx, case: &Case, rt: &mut tokio::runtime::Runtime, l: &mu
 pub fn run(ctx: &Ctx) {
     let thorough = !ctx.quick();
     let totals = Totals { tie: AtomicU64::new(0), executed: AtomicU64::new(0), consumed_steps: AtomicU64::new(0), fully_consumed: AtomicU64::new(0) };
-    let mut space_total = 0u64;
-    for fam in families(thorough) {
-        let nseq = fam.sequences();
-        // index = sequence * 4 + rand * 2 + tie
-        let n = nseq * 4;
+    let mut per_cfg = serde_json::Map::new();
+    for cfg in configs() {
+        // the default configuration is explored deepest
+        let max_len: usize = match (cfg.name == "default", thorough) {
+            (true, false) => 4,
+            (true, true) => 5,
+            (false, false) => 3,
+            (false, true) => 4,
+        };
+        let syms = symbols(&cfg);
+        // work units: every plannable prefix of length p = max_len - 2 (a unit then runs at most
+        // |symbols|^2 schedules); all shorter schedules go with unit 0
+        let p = max_len.saturating_sub(2).max(1);
+        let mut units: Vec<Vec<Step>> = vec![vec![]];
+        {
+            let mut seq = vec![];
+            fn prefixes(cfg: &UdpCfg, syms: &[Step], seq: &mut Vec<Step>, p: usize, out: &mut Vec<Vec<Step>>) {
+                if seq.len() == p {
+                    out.push(seq.clone());
+                    return;
+                }
+                for s in syms {
+                    seq.push(*s);
+                    if plannable(cfg, seq) {
+                        prefixes(cfg, syms, seq, p, out);
+                    }
+                    seq.pop();
+                }
+            }
+            prefixes(&cfg, &syms, &mut seq, p, &mut units);
+        }
         let before = totals.executed.load(Ordering::SeqCst);
         ctx.par_run_init(
-            n,
-            256,
+            units.len() as u64,
+            1,
             |_| vsim::rt(),
-            |i, l, rt| {
-                let tie = i & 1 == 1;
-                let rand = i & 2 == 2;
-                let steps = fam.nth(i / 4);
-                if fam.need_back && !steps.iter().any(|s| matches!(s, Step::D { back, .. } if *back > 0)) {
-                    return;
+            |u, l, rt| {
+                let mut run_seq = |steps: &[Step]| {
+                    let selftest = fnv64(format!("{steps:?}").as_bytes()) % 8 == 0;
+                    for rand in [false, true] {
+                        let case = Case { cfg: cfg.clone(), rand, tie: false, steps: steps.to_vec() };
+                        run_case(ctx, &case, rt, l, Some(&totals), selftest);
+                        if has_tie_spot(steps) {
+                            let case = Case { cfg: cfg.clone(), rand, tie: true, steps: steps.to_vec() };
+                            run_case(ctx, &case, rt, l, Some(&totals), selftest);
+                        }
+                    }
+                };
+                if u == 0 {
+                    // everything shorter than a unit prefix
+                    let mut seq = vec![];
+                    extend(&cfg, &syms, &mut seq, p - 1, &mut run_seq);
+                } else {
+                    let mut seq = units[u as usize].clone();
+                    extend(&cfg, &syms, &mut seq, max_len, &mut run_seq);
                 }
-                if tie && !fam.need_back {
-                    return;
-                }
-                let case = Case { rand, tie, steps };
-                run_case(ctx, &case, rt, l, Some(&totals), (i / 4) % 8 == 0);
             },
         );
         let done = totals.executed.load(Ordering::SeqCst) - before;
-        ctx.set(&format!("udp_schedules_{}", fam.name), json!(done));
-        ctx.set(&format!("udp_max_len_{}", fam.name), json!(fam.max_len));
-        space_total += done;
+        per_cfg.insert(cfg.name.to_string(), json!({"schedules": done, "max_len": max_len, "symbols": syms.len(), "retry_ms": cfg.r_ms(), "max_transmissions": cfg.max_tx()}));
     }
-    ctx.set("udp_schedules", json!(space_total));
+    ctx.set("udp_configs", Value::Object(per_cfg));
+    ctx.set("udp_schedules", json!(totals.executed.load(Ordering::SeqCst)));
     ctx.set("udp_tie_schedules", json!(totals.tie.load(Ordering::SeqCst)));
     ctx.set("udp_steps_consumed", json!(totals.consumed_steps.load(Ordering::SeqCst)));
     ctx.states.fetch_add(totals.fully_consumed.load(Ordering::SeqCst), Ordering::SeqCst);
